@@ -36,6 +36,7 @@ ALPHABET = ["0", "1", "2", ".", "-", "a"]
 NEGATIVES = [("Version_Neg.cfg", "minor compared with >= (reflexivity must fail)"),
              ("Version_NegPatch.cfg", "patch compared (patch independence must fail)"),
              ("Version_NegParse.cfg", "trailing characters after a number accepted (ParseRefines must fail)"),
+             ("Version_NegLenient.cfg", "the strtok_r / strtol parser of the pinned code (accepts 1..2.3, +1.2.3, 1.2.3.4)"),
              ("Version_NegEnable.cfg", "models enabled although no stream requires them"),
              ("Version_NegEvent.cfg", "events of disabled models not rejected")]
 
